@@ -202,7 +202,7 @@ func runFault04(p params, res *drv.Result) {
 	checkBundle := func(env *coreh.Env, id, what string) bool {
 		_, ents, err := env.Entries(nil, "r", id)
 		if err != nil {
-			res.Violate("successful-upload-unreadable", what, "%s: Upload returned nil but the bundle does not read back: %v", what, err)
+			res.Violate("successful-upload-unreadable", sigOf(what), "%s: Upload returned nil but the bundle does not read back: %v", what, err)
 			return false
 		}
 		got := map[string]bool{}
@@ -221,7 +221,7 @@ func runFault04(p params, res *drv.Result) {
 		}
 		dest := env.W.Store("dest-" + id)
 		if err := env.Publish(nil, "r", id, dest.For(nil), 2); err != nil {
-			res.Violate("successful-upload-unreadable", what, "%s: Upload returned nil but the bundle does not download: %v", what, err)
+			res.Violate("successful-upload-unreadable", sigOf(what), "%s: Upload returned nil but the bundle does not download: %v", what, err)
 			return false
 		}
 		if d := coreh.DiffTrees(coreh.WithoutMeta(coreh.StoreTree(dest)), model); d != "" {
@@ -266,6 +266,35 @@ func runFault04(p params, res *drv.Result) {
 			continue
 		}
 		if !checkBundle(env, id, fmt.Sprintf("fault on %s (call %d of %d)", kind, k, ncalls)) {
+			return
+		}
+	}
+	// an earlier upload of the same tree died while writing its k-th blob on a store without atomic writes (an EMPTY
+	// blob stays behind): uploading the tree again must repair it — the new bundle downloads with the full content
+	nput := 0
+	for _, e := range dry.W.Log(0) {
+		if e.Actor == "dry" && e.Store == "blob" && e.Landed && (e.Op == "put" || e.Op == "putx") {
+			nput++
+		}
+	}
+	for k := 1; k <= nput; k++ {
+		env := base.Clone()
+		va := memstore.NewActor("victim").CrashWhen(func(c memstore.Call) bool { return c.Store == "blob" }, k, true).Torn()
+		done := make(chan struct{})
+		go func() { _, _ = upload(env, va); close(done) }()
+		select {
+		case <-va.Dead():
+		case <-done:
+			continue
+		}
+		id, err := upload(env, memstore.NewActor("second-uploader"))
+		evals++
+		res.Stat("uploads_after_a_torn_blob_write", 1)
+		if err != nil {
+			res.Violate("upload-fails-after-torn-blob", "upload-after-torn-write", "an earlier upload died while writing blob %d of %d (empty blob left behind); uploading the same tree again fails: %v", k, nput, err)
+			return
+		}
+		if !checkBundle(env, id, fmt.Sprintf("upload after an earlier upload died while writing blob %d of %d, leaving it empty", k, nput)) {
 			return
 		}
 	}
@@ -326,6 +355,17 @@ func runFault04(p params, res *drv.Result) {
 	res.Nontrivial = len(model) > 0
 	res.Evals, res.Distinct = evals-1, evals-1
 	res.Sample = map[string]interface{}{"mode": "fault", "files": len(model), "leaf": p.Leaf, "upload_calls": ncalls, "download_calls": ndl, "executions": evals}
+}
+
+// sigOf turns a description into a signature fragment (numbers dropped).
+func sigOf(what string) string {
+	var b strings.Builder
+	for _, r := range what {
+		if r < '0' || r > '9' {
+			b.WriteRune(r)
+		}
+	}
+	return strings.Join(strings.Fields(b.String()), "-")
 }
 
 func run04(c drv.Case, res *drv.Result) {
